@@ -458,6 +458,14 @@ func createStrFunctions() { //nolint:funlen // we do have quite a few, yes.
 		}
 		inp := args[1].(object.String).Value
 		repl := args[2].(object.String).Value
+		// Every match becomes an expansion of repl ($1, ${name} copy at most the whole input): check the
+		// worst case against the memory budget before building a result much larger than the arguments.
+		matches := len(re.FindAllStringIndex(inp, -1))
+		perMatch := len(repl) + strings.Count(repl, "$")*len(inp)
+		if matches > 0 && perMatch > (math.MaxInt-len(inp))/matches {
+			return s.Errorf("regsub result too large: %d matches", matches)
+		}
+		object.MustBeOk((len(inp) + matches*perMatch) / object.ObjectSize)
 		newStr := re.ReplaceAllString(inp, repl)
 		return object.String{Value: newStr}
 	}
